@@ -1,7 +1,7 @@
 """rule prototypes, batch 6: C23.a/b/c/e, C03.b/c, C02.a/b, C19.a, C01.a/b/c/d/e, C17.a/d, C22.b"""
 import ast, sys, collections
 from sa.util import *
-from sa import atoms
+from sa import atoms, sem
 L = "textx/lang.py"; MM = "textx/metamodel.py"; M = "textx/model.py"
 def _compile_scope(root):
     """functions reachable from metamodel_from_str by simple-name call graph inside lang/metamodel/rrel/registration/model(get_model_parser)"""
@@ -201,12 +201,19 @@ def r_C19a_C01(root):
             out.append(Finding("C19", "C19.a", L, "TextXVisitor." + fn_name, " ".join(ast.unparse(node).split())[:80], "%s change the parser context, which arpeggio's packrat key (%s) ignores; combined with memoization=True results differ" % (what, sorted(keys))))
     # C01.d: options forwarded under their own name; EOF wrap
     vm = find(t, "TextXVisitor.visit_textx_model"); gm = next(c for c in calls(vm) if callee_name(c) == "get_model_parser")
+    OPT_PROP = {"memoization": ("C19", "C19.b"), "ignore_case": ("C20", "C20.b"), "autokwd": ("C21", "C21.b"), "skipws": ("C22", "C22.c"), "ws": ("C22", "C22.c")}
+    fi_vm = sem.info(vm)
     for k in gm.keywords:
         inst += 1
-        if ast.unparse(k.value) != "self.metamodel.%s" % k.arg: out.append(Finding("C01", "C01.d", L, "TextXVisitor.visit_textx_model", "%s=%s" % (k.arg, ast.unparse(k.value)), "parser option %r is not forwarded from the metamodel" % k.arg))
+        okk = k.arg is not None and ast.unparse(fi_vm.expand(k.value, at=gm)) == "self.metamodel.%s" % k.arg
+        for pr, ru in [("C01", "C01.d")] + ([OPT_PROP[k.arg]] if k.arg in OPT_PROP else []):
+            ob(pr, ru, L, "TextXVisitor.visit_textx_model", "%s=%s" % (k.arg, ast.unparse(k.value)), okk)
+            if not okk: out.append(Finding(pr, ru, L, "TextXVisitor.visit_textx_model", "%s=%s" % (k.arg, ast.unparse(k.value)), "parser option %r is not forwarded from the metamodel" % k.arg))
     need = {"ignore_case", "skipws", "ws", "autokwd", "memoization", "debug"}
     miss = need - {k.arg for k in gm.keywords}
-    if miss: out.append(Finding("C01", "C01.d", L, "TextXVisitor.visit_textx_model", ast.unparse(gm)[:60], "parser options not forwarded: %s" % sorted(miss)))
+    for o in sorted(miss):
+        for pr, ru in [("C01", "C01.d")] + ([OPT_PROP[o]] if o in OPT_PROP else []):
+            out.append(Finding(pr, ru, L, "TextXVisitor.visit_textx_model", "get_model_parser(... %s ...)" % o, "parser option %r of the metamodel is not forwarded to the model parser" % o))
     pi = find(load(root, M), "get_model_parser.TextXModelParser.__init__"); inst += 1
     pm = next((s for s in own_nodes(pi) if isinstance(s, ast.Assign) and ast.unparse(s.targets[0]) == "self.parser_model"), None)
     nodes = next((k.value for k in pm.value.keywords if k.arg == "nodes"), None) if pm is not None else None
